@@ -345,6 +345,65 @@ def check_level(ctx, n):
                    {"kind": "broken-correspondence", "input": meta[b], "correspondence": "FV.C11.Level.paren_level/remove vs helper_functions.get_paren_level/strip_strings"}, found_input=False)
 
 
+def check_paren_match(ctx, n):
+    """find_paren_match against C11.ParenMatch: generated texts between parentheses (nested calls, literals holding parentheses and
+    the other quote) followed by `)` and a tail -- ground truth = the length of the text -- and arbitrary strings; then end to end:
+    declarations whose kind/length selector holds such a literal are indexed."""
+    from fortls.helper_functions import find_paren_match
+    coq = ctx.coq("From FV Require Import Base.Str C11.ParenMatch.\n"
+                  "Definition onat_eqb (a b : option nat) : bool := match a, b with None, None => true | Some x, Some y => Nat.eqb x y | _, _ => false end.\n")
+    r = ctx.rng
+    exprs, meta = [], []
+
+    def inner(depth=0):
+        parts = []
+        for _ in range(r.choice([1, 2, 3])):
+            k = r.choice(["name", "lit", "call", "op"] if depth < 3 else ["name", "lit", "op"])
+            if k == "name":
+                parts.append(r.choice(["len", "n", "kind=8", "x_1", "3"]))
+            elif k == "lit":
+                parts.append(r.choice(['"can\'t"', "'say \"hi'", '"a)b"', "'(('", "''", '"it\'s (so)"', "'x'"]))
+            elif k == "call":
+                parts.append(r.choice(["len", "f", ""]) + "(" + inner(depth + 1) + ")")
+            else:
+                parts.append(r.choice(["+", ", ", "*", " ", "=", ":"]))
+        return "".join(parts)
+    for k in range(n):
+        if k % 2 == 0:
+            a = inner()
+            text = a + ")" + r.choice(["", " :: x", ") + f(1)", " 'q)'"])
+            truth = len(a)
+        else:
+            text = "".join(r.choice("ab()'\" ,") for _ in range(r.choice([0, 1, 2, 4, 7, 12])))
+            truth = None
+        got = find_paren_match(text)
+        ctx.count(("paren-match", text), "'" in text or '"' in text)
+        if truth is not None and got != truth:
+            ctx.report("C11:closing-parenthesis", "the closing parenthesis of %r is found at %d, it stands at %d" % (text, got, truth),
+                       {"kind": "counterexample", "input": {"text": text}, "implementation": got, "oracle": truth})
+        exprs.append("onat_eqb (find_paren_match %s) %s" % (cstr(text), "None" if got < 0 else "(Some %s)" % cnat(got)))
+        meta.append({"text": text, "implementation": got})
+    bad = coq.bools(exprs, shard=400)
+    ctx.cov["traces_validated_against_impl"] += len(exprs)
+    for b in bad[:3]:
+        ctx.report("C11:paren-match-model-mismatch", "find_paren_match differs from C11.ParenMatch on %r" % meta[b]["text"],
+                   {"kind": "broken-correspondence", "input": meta[b], "correspondence": "FV.C11.ParenMatch.find_paren_match vs helper_functions.find_paren_match"}, found_input=False)
+    # end to end
+    from fortls.parsers.internal.parser import FortranFile
+    lines = ["module pm_m", "character(len=len(\"can't\")) :: pm_a", "character(len=len('say \"hi')), parameter :: pm_b = 'x'", "integer(kind=kind(1)) :: pm_c",
+             "character(len=3) :: pm_d", "end module pm_m"]
+    f = FortranFile("/nonexistent/pm.f90")
+    f.set_contents(list(lines))
+    try:
+        names = sorted(c.name.lower() for c in f.parse().get_scopes()[0].children)
+    except Exception as ex:      # noqa: BLE001
+        names = repr(ex)
+    ctx.count(("paren-match-e2e",), True)
+    if names != ["pm_a", "pm_b", "pm_c", "pm_d"]:
+        ctx.report("C11:closing-parenthesis", "declarations whose selector holds a literal with the other quote character are not all indexed: %s" % (names,),
+                   {"kind": "counterexample", "input": {"text": "\n".join(lines)}, "implementation": names, "oracle": ["pm_a", "pm_b", "pm_c", "pm_d"]})
+
+
 def check_param_reader(ctx, n):
     """read_parameter_value (the balanced scan behind PARAMETER values in hover) against C11.Param.read_parameter_value"""
     try:
@@ -631,6 +690,7 @@ def run(ctx):
     check_param_reader(ctx, 300 if q else 6000)
     check_def_list(ctx, 300 if q else 6000)
     check_level(ctx, 300 if q else 6000)
+    check_paren_match(ctx, 300 if q else 6000)
 
 
 def replay(ctx, path):
